@@ -215,6 +215,11 @@ func (e *Env) convert(v Value, to types.Type) Value {
 		ds := e.R().sortOf(to)
 		if s.T.S == IntS {
 			if ds == IntS {
+				if e.contract && isMathInt(s.Typ) {
+					if ii, ok := intInfoOf(to); ok && ii.W == 64 && ii.Signed {
+						return Scalar{s.T, to} // specs read int mathematically
+					}
+				}
 				if fitsIn(s.Typ, to) {
 					return Scalar{s.T, to}
 				}
@@ -776,6 +781,10 @@ func (e *Env) binop(op token.Token, a, b Value, at ast.Node) Value {
 		if e.contract && sa.T.S.K != sb.T.S.K {
 			sa = Scalar{e.toIntTerm(sa), mathIntType}
 			sb = Scalar{e.toIntTerm(sb), mathIntType}
+		} else if sa.T.S.K == KBV && sa.T.Op == "const" && sb.T.S == IntS && !isBitop(op) {
+			sa = Scalar{BV2Nat(sa.T), sb.Typ}
+		} else if sb.T.S.K == KBV && sb.T.Op == "const" && sa.T.S == IntS && !isBitop(op) {
+			sb = Scalar{BV2Nat(sb.T), sa.Typ}
 		} else if sa.T.S.K == KBV && sb.T.S == IntS {
 			sb = Scalar{Int2BV(sa.T.S.W, sb.T), sa.Typ}
 		} else if sb.T.S.K == KBV && sa.T.S == IntS {
@@ -1609,4 +1618,12 @@ func (e *Env) mergeLoose(g *Term, a, b Value) Value {
 		}
 	}
 	return mergeVal(g, a, b)
+}
+
+func isBitop(op token.Token) bool {
+	switch op {
+	case token.AND, token.OR, token.XOR, token.AND_NOT, token.SHL, token.SHR:
+		return true
+	}
+	return false
 }
